@@ -54,7 +54,7 @@ P_LIB_API void
 p_atomic_int_inc (volatile pint *atomic)
 {
 	p_mutex_lock (pp_atomic_mutex);
-	(*atomic)++;
+	*atomic = (pint) ((puint) *atomic + 1);
 	p_mutex_unlock (pp_atomic_mutex);
 }
 
@@ -64,7 +64,8 @@ p_atomic_int_dec_and_test (volatile pint *atomic)
 	pboolean is_zero;
 
 	p_mutex_lock (pp_atomic_mutex);
-	is_zero = --(*atomic) == 0;
+	*atomic = (pint) ((puint) *atomic - 1);
+	is_zero = *atomic == 0;
 	p_mutex_unlock (pp_atomic_mutex);
 
 	return is_zero;
@@ -95,7 +96,7 @@ p_atomic_int_add (volatile pint	*atomic,
 
 	p_mutex_lock (pp_atomic_mutex);
 	oldval = *atomic;
-	*atomic = oldval + val;
+	*atomic = (pint) ((puint) oldval + (puint) val);
 	p_mutex_unlock (pp_atomic_mutex);
 
 	return oldval;
@@ -194,7 +195,7 @@ p_atomic_pointer_add (volatile void	*atomic,
 
 	p_mutex_lock (pp_atomic_mutex);
 	oldval = *ptr;
-	*ptr = oldval + val;
+	*ptr = (pssize) ((psize) oldval + (psize) val);
 	p_mutex_unlock (pp_atomic_mutex);
 
 	return oldval;
